@@ -289,6 +289,18 @@ def run_history(ctx, hid, ops, table):
             else:
                 got = {str(k): float(v) for k, v in dict(o['ok']).items()}
                 decs[op['dec']] = o['ok']
+                if step % 3 == 0:
+                    # the user keeps a copy and scribbles on the mapping that
+                    # was returned: nothing later may depend on it
+                    import copy as _copy
+                    decs[op['dec']] = _copy.copy(o['ok'])
+                    try:
+                        for k_ in list(o['ok']):
+                            o['ok'][k_] = o['ok'][k_] * 5 + 2
+                        o['ok']['scribble'] = 7
+                    except Exception:
+                        pass
+                    ctx.count('returned_mappings_scribbled_on')
                 if 'ok' not in fresh or any(
                         abs(got.get(k, 0) - fresh['ok'].get(k, 0)) > 1e-12
                         for k in set(got) | set(fresh['ok'])):
